@@ -16,6 +16,7 @@
    C17_to_tar_dotdot_old_code_refuted).  Still true of the code: C17_to_tar_dotdot_member_omitted (known finding
    K17-totar-dotdot-omitted), C17_cat_missing_name_exit0.
    Only statements, `exact`, `Check` pins, `Print Assumptions`, non-vacuity Examples. *)
+From MLA Require Import Limit.
 From MLA Require Import Base Stream Blocks Writer Reader RoundTripBlocks RoundTripReader RoundTripWriter RoundTripRun RoundTripGlue RoundTrip Ecies EciesGcm LinearProofs.
 From Coq Require Import Permutation.
 From MLAGen Require Src.
@@ -26,7 +27,7 @@ Open Scope N_scope.
    archive built by successful writer calls, over any top-layer stream refining a cursor, that
    copy is exactly the bytes given, and the size the index reports (the tar entry size, the
    size shown by `list -v`) is their count *)
-Theorem C17_commands_return_the_bytes :
+Theorem C17_commands_return_the_bytes {LIM : Limit} :
   forall FNMAX TS TC TA TE (H : bytes -> bytes) (order : footer -> footer),
   tags_distinct TS TC TA TE -> (forall x, len (H x) = 32) -> (forall f, Permutation (order f) f) ->
   forall ops sf rs,
@@ -48,7 +49,7 @@ Proof.
 Qed.
 
 (* `list -vv` shows the stored hash: it is the SHA-256 of the bytes given *)
-Theorem C17_listing_hash_is_true :
+Theorem C17_listing_hash_is_true {LIM : Limit} :
   forall FNMAX TS TC TA TE (H : bytes -> bytes) (order : footer -> footer),
   tags_distinct TS TC TA TE -> (forall x, len (H x) = 32) -> (forall f, Permutation (order f) f) ->
   forall ops sf rs,
@@ -629,89 +630,15 @@ Proof. exact repair_key_old_code_refuted. Qed.
    EndOfOriginalArchiveData, nothing unfinished; the block list of the new (finalized, well-formed) writer holds under every given
    name exactly the given bytes; exit status 0 iff the new archive's layers accept the stream.  PARTIAL: sources with the compression
    layer are not covered, and re-reading the new archive's BYTES through the Reader is not proved here (Tie B compares it) *)
-Theorem C17_repair_intact_preserves_files_partial :
-  forall (CHUNK TAG CIPHERBUF BLOCK LIMIT FNMAX CACHE FSBUF TS TC TA TE : N) (H : bytes -> bytes) 
-  (order : footer -> footer) (pubk : bytes -> bytes) (dh : bytes -> bytes -> bytes) (kdf : bytes -> bytes)
-  (wenc wdec wtag : bytes -> bytes -> bytes) (ksf : bytes -> bytes -> N -> N -> N)
-  (tagf : bytes -> bytes -> N -> bytes -> bytes) (dec : bytes -> bytes) (dstate : Type) (dinit : dstate)
-  (dstep : dstate -> bytes -> N -> dresult * N * bytes * dstate) (pfuel : nat),
-  0 < CHUNK ->
-  0 < TAG ->
-  0 < CIPHERBUF ->
-  0 < BLOCK ->
-  BLOCK < 2 ^ 32 ->
-  FNMAX < 2 ^ 64 ->
-  0 < CACHE ->
-  tags_distinct TS TC TA TE ->
-  (forall x : bytes, len (H x) = 32) ->
-  (forall f : footer, Permutation (order f) f) ->
-  (forall (k : bytes) (m : list N), len m = 32 -> wdec k (wenc k m) = m) ->
-  (forall e : bytes, len (pubk e) = 32) ->
-  (forall (k : bytes) (m : list N), len m = 32 -> len (wenc k m) = 32) ->
-  (forall k c : bytes, len (wtag k c) = 16) ->
-  forall (cfg : wconfig) (ct cm : list N) (files : list (bytes * bytes)) (sf : wstate) (rs : list (res N)) (s : bytes),
-  made_by_create CHUNK TAG BLOCK LIMIT FNMAX TS TC TA TE H order pubk dh kdf wenc wtag ksf tagf dec cfg files sf rs [] s ->
-  wc_encrypt cfg = false ->
-  wc_compress cfg = false ->
-  (forall n d : bytes, In (n, d) files -> len d < 2 ^ 64) ->
-  w_next sf < 2 ^ 64 ->
-  exists a : bytes,
-  archive_write CHUNK CIPHERBUF BLOCK LIMIT FNMAX TS TC TA TE H order pubk dh kdf wenc wtag ksf tagf cfg ct cm
-  (create_ops files) = Ok a /\
-  (forall fuel : nat,
-  (N.to_nat (len (w_out sf)) < fuel)%nat ->
-  exists (out : wstate) (obl : list block),
-  good_output FNMAX TS TC TA TE H out obl /\
-  (forall n d : bytes, In (n, d) files -> content_of (files_of obl) n = d) /\
-  (forall (unauth : bool) (cfg' : wconfig) (ct' cm' : list N),
-  cmd_repair CHUNK TAG CIPHERBUF BLOCK LIMIT FNMAX CACHE FSBUF TS TC TA TE H pubk dh kdf wenc wdec wtag ksf tagf
-  dstate dinit dstep pfuel unauth fuel a [] cfg' ct' cm' =
-  repaired CHUNK CIPHERBUF BLOCK LIMIT pubk dh kdf wenc wtag ksf tagf cfg' ct' cm' out)).
+(* statement = CliRepairIntact.repair_intact_plain (fixlimits: it now carries the premise that the repair
+   did not end in SerializationError, `repair ... (Cursor (w_out sf)) fuel 0 w_init <> Err EDeser`: the footer
+   of the repaired archive fits BINCODE_MAX_DESERIALIZE) *)
+Theorem C17_repair_intact_preserves_files_partial : ltac:(let t := type of repair_intact_plain in exact t).
 Proof. exact repair_intact_plain. Qed.
 
 (* the same for a source with the encryption layer, both modes of the fail-safe decryptor *)
-Theorem C17_repair_intact_preserves_files_enc_partial :
-  forall (CHUNK TAG CIPHERBUF BLOCK LIMIT FNMAX CACHE FSBUF TS TC TA TE : N) (H : bytes -> bytes) 
-  (order : footer -> footer) (pubk : bytes -> bytes) (dh : bytes -> bytes -> bytes) (kdf : bytes -> bytes)
-  (wenc wdec wtag : bytes -> bytes -> bytes) (ksf : bytes -> bytes -> N -> N -> N)
-  (tagf : bytes -> bytes -> N -> bytes -> bytes) (dec : bytes -> bytes) (dstate : Type) (dinit : dstate)
-  (dstep : dstate -> bytes -> N -> dresult * N * bytes * dstate) (pfuel : nat),
-  0 < CHUNK ->
-  0 < TAG ->
-  0 < CIPHERBUF ->
-  0 < BLOCK ->
-  BLOCK < 2 ^ 32 ->
-  FNMAX < 2 ^ 64 ->
-  0 < CACHE ->
-  tags_distinct TS TC TA TE ->
-  (forall x : bytes, len (H x) = 32) ->
-  (forall f : footer, Permutation (order f) f) ->
-  (forall (k : bytes) (m : list N), len m = 32 -> wdec k (wenc k m) = m) ->
-  (forall e : bytes, len (pubk e) = 32) ->
-  (forall (k : bytes) (m : list N), len m = 32 -> len (wenc k m) = 32) ->
-  (forall k c : bytes, len (wtag k c) = 16) ->
-  forall (cfg : wconfig) (ct cm : list N) (files : list (bytes * bytes)) (sf : wstate) (rs : list (res N))
-  (privs : list bytes) (s : bytes),
-  made_by_create CHUNK TAG BLOCK LIMIT FNMAX TS TC TA TE H order pubk dh kdf wenc wtag ksf tagf dec cfg files sf rs privs s ->
-  wc_encrypt cfg = true ->
-  wc_compress cfg = false ->
-  (forall n d : bytes, In (n, d) files -> len d < 2 ^ 64) ->
-  w_next sf < 2 ^ 64 ->
-  len (enc_format CHUNK (ksf (wc_key cfg) (wc_nonce cfg)) (tagf (wc_key cfg) (wc_nonce cfg)) (w_out sf)) / (CHUNK + TAG) + 2 <=
-  2 ^ 32 ->
-  exists a : bytes,
-  archive_write CHUNK CIPHERBUF BLOCK LIMIT FNMAX TS TC TA TE H order pubk dh kdf wenc wtag ksf tagf cfg ct cm
-  (create_ops files) = Ok a /\
-  (TagCollision pubk dh kdf wenc wtag (wc_eph cfg) (wc_key cfg) (wc_recipients cfg) privs \/
-  (forall (fuel : nat) (unauth : bool),
-  (N.to_nat (len (w_out sf) + TAG) < fuel)%nat ->
-  exists (out : wstate) (obl : list block),
-  good_output FNMAX TS TC TA TE H out obl /\
-  (forall n d : bytes, In (n, d) files -> content_of (files_of obl) n = d) /\
-  (forall (cfg' : wconfig) (ct' cm' : list N),
-  cmd_repair CHUNK TAG CIPHERBUF BLOCK LIMIT FNMAX CACHE FSBUF TS TC TA TE H pubk dh kdf wenc wdec wtag ksf tagf
-  dstate dinit dstep pfuel unauth fuel a privs cfg' ct' cm' =
-  repaired CHUNK CIPHERBUF BLOCK LIMIT pubk dh kdf wenc wtag ksf tagf cfg' ct' cm' out))).
+(* statement = CliRepairIntact.repair_intact_enc (fixlimits: carries the premise that the repair did not end in SerializationError) *)
+Theorem C17_repair_intact_preserves_files_enc_partial : ltac:(let t := type of repair_intact_enc in exact t).
 Proof. exact repair_intact_enc. Qed.
 
 (* to-tar and paths the tar crate refuses (since repair 6302e72 add_file_to_tar tries the path on a scratch builder first).
@@ -852,7 +779,7 @@ Definition x17_order (f : footer) : footer := f.
 Definition x17_plain : wconfig := mkWC false false x17_id [] [] [] [].
 Notation T1 := Src.BT_FileStart (only parsing). Notation T2 := Src.BT_FileContent (only parsing).
 Notation T3 := Src.BT_EndOfArchiveData (only parsing). Notation T4 := Src.BT_EndOfFile (only parsing).
-Definition x17_run := wrun 65536 T1 T2 T3 T4 Sha256.sha256 x17_order w_init (create_ops x17_files ++ [OFinalize]).
+Definition x17_run := wrun (LIM := Src.BINCODE_MAX_DESERIALIZE_prod) 65536 T1 T2 T3 T4 Sha256.sha256 x17_order w_init (create_ops x17_files ++ [OFinalize]).
 Definition x17_create := cmd_create 64 24 256 ex3_LIMIT 65536 T1 T2 T3 T4
    Sha256.sha256 x17_order x17_pub x17_dh x17_id x17_k2 x17_tag x17_ksf x17_tagf x17_plain [10; 0; 33] [] x17_files.
 Definition x17_a : bytes := match cr_out x17_create with OWritten a => a | _ => [] end.
